@@ -24,6 +24,12 @@ def main():
             mod.run_shard(job["shard"], ctx)
         from . import contracts
         contracts.flush(ctx, job["prop"])
+        try:
+            from . import reach
+            ctx.lines = reach.dump()
+            ctx.executable = reach.executable() if job["index"] == 0 else {}
+        except Exception:
+            pass
     except Exception:
         ctx.inconclusive(f"shard {job['index']} ({job['shard'].get('kind')}) harness error: " + traceback.format_exc()[-1500:])
     with open(out, "w") as f:
